@@ -57,6 +57,7 @@ func runC12(ci interface{}) Result {
 	}
 	if tr.Hang != nil {
 		vstat.Class("hang-left-to-C01", 1)
+		dumpHang(sc, tr)
 		return r
 	}
 	r.Classes = append(r.Classes, "refresh:"+sc.Cfg.Refresh)
